@@ -79,6 +79,12 @@ CLAIMS["C10"] = dict(
     text="TLC checks that the byte-level reader and the text-level rule agree for every payload up to the bound in UTF-8, UTF-16LE and UTF-16BE (including an LE stream cut inside its final newline); the real reader must deliver, for each such file, exactly std's lossy text of the model's lines; bundled and random texts with hostile characters (U+4E0A, U+0A41, U+0A0A, U+FEFF, astral) must decode identically in all four encodings, invalid UTF-8 and unpaired surrogates must equal the per-line lossy reference, and the thorough tier sweeps every Unicode scalar value as metadata content in the three BOM encodings.",
     note="Trusted: TLC, std's lossy conversions as the reference. An odd trailing byte of a UTF-16 stream is dropped (not determined by the statement; the model follows the code).")
 
+CLAIMS["C11"] = dict(
+    category="model_checking", design_ref="DESIGN.md section 4, C11",
+    technique="TLA+ spec Records: table-driven format rules (type per key, conversion per type, defaults, event and colour rules) with invariants LastWins, ARRule, Ranges and the action property RejectStutters checked by TLC on all record sequences up to a bound; every sequence replayed through the section's own decoder and Beatmap with field-by-field and per-line verdict comparison",
+    text="The rules of the statement are written as TLA+ tables independent of the Rust call graph; TLC enumerates every sequence of up to 2-3 records over every recognised key x value class (valid, boundary, overflow, NaN/inf, empty, padded, comment-suffixed, extra colon, enum names) plus unknown keys, duplicates, all event kinds and colour shapes, and checks last-valid-wins, the AR-follows-OD rule, clamps, break ordering and that a rejected record is a stutter; the real decoders must produce exactly the predicted struct and verdicts.",
+    note="Trusted: TLC, the spelling table and projections in harness/src/records.rs. Floats on a 1/100 lattice; 2^31 / 2^31-1 are not given to f32 fields (not representable).")
+
 NOT_YET = "check not built yet in this round (planned, see DESIGN.md section 4)"
 NA = {
     "C17": "real-valued geometry (Hausdorff distance to Bezier/arc/Catmull curves): no discrete state or history for a TLA+ specification to decide; see DESIGN.md section 4, C17",
